@@ -250,7 +250,7 @@ def mc_cases(ctx):
 # run
 # ------------------------------------------------------------------------------------------------
 def voronoi_specs(ctx):
-    n = ctx.pick(14, 220)
+    n = ctx.pick(12, 160)
     specs = []
     for i in range(n):
         rng = random.Random(ctx.seed * 100003 + i)
@@ -270,18 +270,22 @@ def shipped_specs(ctx):
     return [{"kind": "shipped", "path": p} for p in paths]
 
 
-def run(ctx):
-    specs = mc_cases(ctx) + voronoi_specs(ctx) + shipped_specs(ctx)
+def _drive(ctx, specs, first_case):
     jobs = []
     payloads = {}
-    for i, spec in enumerate(specs, start=1):
+    for i, spec in enumerate(specs, start=first_case):
         rng = random.Random(ctx.seed * 65537 + i)
         spec["readings"] = readings_for(rng, spec["kind"], ctx.quick, big="in_vivo" in spec.get("path", ""))
         payloads[i] = spec
         jobs.append((i, spec))
     # biggest images first so that the pool is balanced
     order = sorted(jobs, key=lambda j: -{"shipped": 3, "voronoi": 2}.get(j[1]["kind"], 1))
-    results = core.parallel_map(case_job, order, chunksize=1)
+    return payloads, core.parallel_map(case_job, order, chunksize=1)
+
+
+def run(ctx):
+    specs = shipped_specs(ctx) + voronoi_specs(ctx) + mc_cases(ctx)
+    payloads, results = _drive(ctx, specs, 1)
     cases = []
     skipped = 0
     info = {}
